@@ -18,7 +18,7 @@ type generator struct {
 
 type intent struct {
 	S    int
-	What string // "stale-op", "again"
+	What string // "stale-op", "again", "expunge", "del-ent", "flag-ent", "expunge-or-close"
 	Dst  string
 	Ent  int
 }
@@ -288,6 +288,31 @@ func (g *generator) next(w *world) (op, bool, error) {
 			}
 		case "expunge":
 			return op{Kind: "EXPUNGE", S: in.S}, true, nil
+		case "expunge-or-close":
+			if g.rng.Chance(0.3) {
+				return op{Kind: "CLOSE", S: in.S, Box: s.box}, true, nil
+			}
+			return op{Kind: "EXPUNGE", S: in.S}, true, nil
+		case "del-ent", "flag-ent":
+			for i, r := range s.view {
+				if r.Ent == in.Ent {
+					uid := g.rng.Chance(0.3)
+					set := fmt.Sprint(i + 1)
+					if uid {
+						set = fmt.Sprint(r.UID)
+					}
+					if in.What == "del-ent" {
+						return op{Kind: "STORE", S: in.S, UID: uid, Set: set, Act: "+", Silent: g.rng.Chance(0.4), Flags: []string{`\Deleted`}}, true, nil
+					}
+					acts := []string{"+", "+", "-", "="}
+					fl := [][]string{{"xm"}, {`\Seen`}, {`\Flagged`, "xm"}, {"Foo"}}[g.rng.Pick(4)]
+					act := acts[g.rng.Pick(len(acts))]
+					if act == "=" { // a STORE FLAGS through the other mailbox must not touch \Deleted of this one either
+						fl = []string{"xs"}
+					}
+					return op{Kind: "STORE", S: in.S, UID: uid, Set: set, Act: act, Silent: g.rng.Chance(0.3), Flags: fl}, true, nil
+				}
+			}
 		case "again":
 			for i, r := range s.view {
 				if r.Ent == in.Ent {
@@ -320,6 +345,22 @@ func (g *generator) next(w *world) (op, bool, error) {
 		// interesting situations
 		st := stalePositions(view)
 		sh := g.sharing(w, si)
+		// sessions that have another mailbox selected
+		var elsewhere []int
+		for j, t := range w.sess {
+			if j != si && t.box != s.box {
+				elsewhere = append(elsewhere, j)
+			}
+		}
+		if len(elsewhere) > 0 && g.rng.Chance(0.3) {
+			// one message in two mailboxes: \Deleted here, another flag changed through the other mailbox, then EXPUNGE/CLOSE here
+			other := elsewhere[g.rng.Pick(len(elsewhere))]
+			p := g.rng.Range(1, n)
+			ent := view[p-1].Ent
+			g.pending = append(g.pending, intent{S: si, What: "del-ent", Ent: ent}, intent{S: other, What: "flag-ent", Ent: ent},
+				intent{S: si, What: "expunge-or-close"})
+			return op{Kind: "COPY", S: si, Set: fmt.Sprint(p), Box: w.sess[other].box}, true, nil
+		}
 		switch y := g.rng.Pick(100); {
 		case y < 35 && len(st) > 0:
 			return g.opOnRow(w, si, st[g.rng.Pick(len(st))]), true, nil
